@@ -14,3 +14,69 @@ Definition buf_mk (v : list N) : list N := v.
 (* what an in-memory buffer and a scripted writer (Spec/Io.v) have in common: the bytes received so far;
    [buf_rel b w]: the writer accepts everything from now on and has received exactly the buffer's content *)
 Definition buf_rel (b : list N) (w : writer) : Prop := w_script w = [] /\ w_received w = b.
+
+(* ---- vocabulary of tools/gen_fn_macros.py (Generated/MacrosFn.v): crates/anstream/src/_macros.rs ----
+   What ONE call of print! / println! / eprint! / eprintln! / panic! does to the process, as a list of events
+   (threaded through the translated arm like every `&mut`).  Definitions only. *)
+
+(* `e.kind() != ErrorKind::BrokenPipe`: the error kinds the scripted writers of Spec/Io.v answer, plus BrokenPipe *)
+Inductive ekindx : Set := EKBrokenPipe | EKOf (k : ekind).
+Definition ekindx_eqb (a b : ekindx) : bool :=
+  match a, b with
+  | EKBrokenPipe, EKBrokenPipe => true
+  | EKOf Interrupted, EKOf Interrupted | EKOf WouldBlock, EKOf WouldBlock
+  | EKOf Other, EKOf Other | EKOf WriteZero, EKOf WriteZero => true
+  | _, _ => false
+  end.
+
+Inductive mevent : Set :=
+  (* `::std::write!(&mut s, ..)` / `writeln!`: ONE `AutoStream::write_fmt` on s; the stream AFTER the call, its answer *)
+  | MWriteFmt (after : astream) (r : unit + ekind)
+  (* `::std::print!("{}", text)` (err = false, nl = false), println (nl), eprint (err), eprintln: std's own macros *)
+  | MStdPrint (err nl : bool) (text : list N)
+  (* `::std::panic!("{}", msg)`, `::std::panic!("<prefix>{e}")` with an io::Error e, `::std::panic!()`: the thread unwinds *)
+  | MPanic (msg : list N)
+  | MPanicIo (prefix : list N) (e : ekind)
+  | MPanicExplicit.
+
+(* the mode of a stream made by AutoStream::auto / AutoStream::new(_, choice(&raw)) when `choice(&raw)` answers [d] *)
+Definition mac_mode (d : cchoice) : amode := auto_mode CAuto d.
+
+(* hand model of to_adapted_string: a fresh stream over an empty Vec in the mode the TARGET's choice [d] names, one
+   write_fmt of the fragments (its io::Result is ignored), the Vec's content through String::from_utf8_lossy [lossy];
+   [wv] = the Vec has real vectored writes (irrelevant for write_fmt) *)
+Definition mac_adapted (lossy : list N -> list N) (wv : bool) (d : cchoice) (frags : list (list N)) : option (list N) :=
+  match auto_op wv (mac_mode d) sb_new (writer_of []) (OWriteFmt frags) with
+  | Some (_, w1, _) => Some (lossy (w_received w1))
+  | None => None
+  end.
+
+(* hand model of a print macro outside tests (what ocaml/drv_stream.ml `pm` runs): a FRESH stream over the std handle [h] in
+   the mode the handle's own answers decide, ONE write_fmt of the fragments; an error that is not BrokenPipe is a panic
+   whose message starts with [prefix] (none of the scripted writers' error kinds is BrokenPipe) *)
+Definition mac_emit (cf : acfg) (h : writer) (prefix : list N) (frags : list (list N)) (world : list mevent)
+  : option (list mevent) :=
+  match auto_op (ac_wv_all cf) (mac_mode (ac_decided cf)) sb_new h (OWriteFmt frags) with
+  | Some (s1, w1, r) =>
+      let a1 := as_of (mac_mode (ac_decided cf)) s1 w1 in
+      Some (match r with
+            | RErr e => world ++ [MWriteFmt a1 (inr e); MPanicIo prefix e]
+            | _ => world ++ [MWriteFmt a1 (inl tt)]
+            end)
+  | None => None
+  end.
+
+(* ... and under test (`cfg!(test)` or the feature "test"): the adapted text goes to std's own macro, which the test
+   harness captures *)
+Definition mac_captured (lossy : list N -> list N) (wv : bool) (d : cchoice) (err nl : bool) (frags : list (list N))
+           (world : list mevent) : option (list mevent) :=
+  match mac_adapted lossy wv d frags with
+  | Some t => Some (world ++ [MStdPrint err nl t])
+  | None => None
+  end.
+
+(* "failed printing to stdout: " / "failed printing to stderr: " *)
+Definition mac_msg_stdout : list N :=
+  [102; 97; 105; 108; 101; 100; 32; 112; 114; 105; 110; 116; 105; 110; 103; 32; 116; 111; 32; 115; 116; 100; 111; 117; 116; 58; 32].
+Definition mac_msg_stderr : list N :=
+  [102; 97; 105; 108; 101; 100; 32; 112; 114; 105; 110; 116; 105; 110; 103; 32; 116; 111; 32; 115; 116; 100; 101; 114; 114; 58; 32].
